@@ -497,9 +497,6 @@ def run(chk):
         "FIXED_PRELUDE (names the generated code relies on besides the extracted `__` temporaries) is a hand list",
         "the semantic half of C13 ('what it does') is covered only through token-stream equality modulo the renaming, not by running programs",
     ]
-    if not chk.findings and os.path.exists(os.path.join(vlib.BUILD, "kf-C13.json")):
-        # TEMPORARY FALLBACK (lead: drop after merging build/kf-C13.json into known_findings.json)
-        chk.findings = json.load(open(os.path.join(vlib.BUILD, "kf-C13.json")))
     known = [f for f in chk.findings if f.get("status") == "known"]
     known_ids = {f["id"] for f in known}
     known_site = finding_sites(chk.findings)
